@@ -260,6 +260,8 @@ func (m *Map) Range(f func(k, v any) bool)        { pt("Map.Range"); m.m.Range(f
 func (m *Map) Swap(k, v any) (any, bool)          { pt("Map.Swap"); return m.m.Swap(k, v) }
 func (m *Map) CompareAndSwap(k, o, n any) bool    { pt("Map.CompareAndSwap"); return m.m.CompareAndSwap(k, o, n) }
 func (m *Map) CompareAndDelete(k, o any) bool     { pt("Map.CompareAndDelete"); return m.m.CompareAndDelete(k, o) }
+// Peek is Load without a scheduling point (for harness wait conditions evaluated by the scheduler).
+func (m *Map) Peek(k any) bool { _, ok := m.m.Load(k); return ok }
 func (m *Map) Clear()                             { pt("Map.Clear"); m.m.Clear() }
 
 type Pool = sync.Pool
